@@ -25,7 +25,7 @@
 use std::collections::{BTreeMap, BTreeSet};
 
 use rustdds::verif::{
-  discovered_reader_of, discovered_writer_of,
+  discovered_reader_of, discovered_writer_as, discovered_writer_of,
   pl::{self, Lease},
   secnode::{EndpointProtection, Protect, SecParty},
   LocalReader, LocalWriter, SimNode, WritePayload,
@@ -372,6 +372,26 @@ pub fn run(_tier: &str, ctx: &mut Ctx) -> Check {
     });
     fp.str(topic);
   }
+  // sometimes a writer of a third participant has the entity id of one of R's writers (entity ids are
+  // unique per participant only) and is matched with the reader of a topic without submessage protection
+  if ctx.ch.chance(1, 3) {
+    let open: Vec<usize> = (0..rig.eps.len()).filter(|e| !rig.eps[*e].prot.submessage).collect();
+    let closed: Vec<usize> = (0..rig.eps.len()).filter(|e| rig.eps[*e].prot.submessage).collect();
+    if !open.is_empty() && !closed.is_empty() {
+      let o = open[ctx.ch.index(open.len())];
+      let c = closed[ctx.ch.index(closed.len())];
+      let twin = wire::guid([0x33; 12], wire::eid_of(&rig.eps[c].peer));
+      let topic = TOPICS[rig.eps[o].topic];
+      node.remote_writer_discovered(discovered_writer_as(&r, rig.eps[o].peer, twin, topic, TYPE, &rq, &[node_addr(3)]));
+      node.drain_discovery_commands();
+      let matched = node.reader_view(&readers[&o]).map(|v| v.matched_writers.len()).unwrap_or(0);
+      if matched != 2 {
+        return Err(v("HARNESS-ERROR/c17-match", format!("{topic}: the twin writer was not matched ({matched} matched writers)")));
+      }
+      ctx.count("op.twin_writer_entity_id");
+      fp.str("twin");
+    }
+  }
   let n_writers = ctx.ch.weighted(&[2, 3, 1]);
   for k in 0..n_writers {
     let t = chosen[k % chosen.len()];
@@ -451,7 +471,7 @@ pub fn run(_tier: &str, ctx: &mut Ctx) -> Check {
             // the next sequence number the reader has no knowledge of (received, or told to be irrelevant)
             let fresh = node
               .reader_view(&readers[&e])
-              .and_then(|v| v.matched_writers.first().map(|w| w.changes.iter().map(|c| c.0 + 1).max().unwrap_or(1).max(w.ack_base)))
+              .and_then(|v| v.matched_writers.iter().find(|w| w.writer == ep.peer).map(|w| w.changes.iter().map(|c| c.0 + 1).max().unwrap_or(1).max(w.ack_base)))
               .unwrap_or(1)
               .max(ep.next_sn);
             rig.eps[e].next_sn = fresh;
